@@ -5,7 +5,7 @@ bandit with the same configuration *and seed* and the old bandit's current arm l
 from the same random-stream position (all generator objects grafted, aliasing preserved); a seeded
 continuation is then run on both and the full output streams are compared bit-for-bit, plus cold_arms.
 
-As built: Extra scenario: the caller re-uses its training arrays (overwrites them in place with D, same shape) and calls fit again; prior histories often end with add_arm + warm_start.
+As built: Extra scenario: the caller re-uses its training arrays (overwrites them in place with D, same shape) and calls fit again; prior histories often end with add_arm + warm_start; D omits one or two arms in half of the cases; the feature count may change across fit(D) in both directions (1 <-> k); queries arrive in the history's habitual container (Series, DataFrame, narrow ints, ...).
 """
 from mon import env  # noqa: F401
 import copy
@@ -18,8 +18,8 @@ TECHNIQUE = "runtime twin monitor: re-fitted bandit vs fresh bandit fit on the s
 RULE = ("48 policy combinations x prior histories of 3-12 ops (fit, partial_fit, add/remove arm, warm_start, queries) x new "
         "data D smaller/larger/with another feature count (1,2,3,5); non-trivial = |D| < rows held before, or other feature "
         "count, or prior warm start / arm change; distinct = (combo, prior skeleton, |D|, feature counts)")
-BUDGET = {"quick": {"cases": 48 * 5, "shards": 8}, "thorough": {"cases": 48 * 150, "shards": 16, "wall_s": 2400}}
-MIN = {"quick": {"evaluations": 200, "nontrivial": 100}, "thorough": {"evaluations": 6000, "nontrivial": 2500}}
+BUDGET = {"quick": {"cases": 48 * 15, "shards": 8}, "thorough": {"cases": 48 * 300, "shards": 16, "wall_s": 2400}}
+MIN = {"quick": {"evaluations": 600, "nontrivial": 300}, "thorough": {"evaluations": 12000, "nontrivial": 5000}}
 ASSUMPTIONS = ["the fresh twin is constructed with the same seed (k-means / trees take random_state from the seed value)",
                "'same random-stream position' = every generator object reachable from the bandit, grafted before and after fit(D)"]
 
@@ -78,7 +78,7 @@ def run_case(rs, ctx):
         return run_buffer_reuse(rs, ctx, l, p)
     cfg = gen.gen_cfg(rs, l, p, labels=gen.pick(rs, ["int", "str", "float"]), n_arms=int(rs.integers(2, 5)),
                       with_probs=bool(rs.integers(4) == 0))
-    nf0 = int(gen.pick(rs, [2, 3]))
+    nf0 = int(gen.pick(rs, [1, 2, 3]))
     sh = gen.Shadow(cfg, nf0)
     sh.vary_nf = True
     prior = gen.gen_ops(rs, cfg, sh, 1, ["fit"], train_rows=(6, 30)) + \
@@ -94,11 +94,19 @@ def run_case(rs, ctx):
     if any(isinstance(o, list) and o and o[0] == "EXC" for o in out):
         # a documented-domain prior history must not raise; not C07's business to judge which property broke
         ctx.count("prior_history_raised")
-    nf1 = int(gen.pick(rs, [nf0, nf0, nf0, 1, 2, 3, 5])) if gen.is_ctx(cfg) else nf0
+    nf1 = int(gen.pick(rs, [nf0, nf0, 1, 1, 2, 3, 5])) if gen.is_ctx(cfg) else nf0
     sh.nf = nf1
     nD = int(gen.pick(rs, [max(gen.min_rows(cfg), 2), 5, 12, 40]))
     nD = max(nD, gen.min_rows(cfg))
-    D = gen.gen_batch(rs, cfg, sh.arms, nD, nf1, distinct_rows=4)
+    # D need not mention every arm: arms without rows in D must come out of fit(D) exactly as a fresh bandit's would
+    omit = None
+    if len(sh.arms) > 1 and rs.integers(2):
+        omit = [sh.arms[-1]] if rs.integers(2) else [gen.pick(rs, sh.arms)]
+        if len(sh.arms) > 2 and rs.integers(3) == 0:
+            omit.append(gen.pick(rs, sh.arms))
+        if len(set(omit)) >= len(sh.arms):
+            omit = omit[:1]
+    D = gen.gen_batch(rs, cfg, sh.arms, nD, nf1, distinct_rows=4, omit=omit)
     fit_op = dict(D, op="fit")
     cfgF = dict(cfg, arms=list(sh.arms))
     F = gen.build(cfgF)
@@ -135,6 +143,8 @@ def run_case(rs, ctx):
         feats.append("warm")
     if "add_arm" in kinds or "remove_arm" in kinds:
         feats.append("armchange")
+    if omit:
+        feats.append("D_omits_arms")
     if feats:
         ctx.nt(gen.cfg_sig(cfg), "".join(k[0] for k in kinds), nD, ",".join(feats))
     ctx.sample({"cfg": cfg, "prior": [gen.short(o) for o in prior], "D_rows": nD, "nf": [nf0, nf1],
